@@ -776,7 +776,14 @@ func (s *sim) dump() string {
 			}
 			obs = "obs=" + strings.Join(ms, ",")
 		}
-		out = append(out, fmt.Sprintf("T %s %s %s %s %s %s %s %s", t.Namespace, t.Name, t.Labels["katib.kubeflow.org/experiment"],
+		// the Experiment a Trial counts for is the one named by the reserved label; it must be the Experiment that owns it
+		expTok := t.Labels["katib.kubeflow.org/experiment"]
+		for _, o := range t.OwnerReferences {
+			if o.Controller != nil && *o.Controller && o.Kind == "Experiment" && o.Name != expTok {
+				expTok += "!owner=" + o.Name
+			}
+		}
+		out = append(out, fmt.Sprintf("T %s %s %s %s %s %s %s %s", t.Namespace, t.Name, expTok,
 			b01(!t.DeletionTimestamp.IsZero()), b01(hasFin(t.Finalizers, "clean-metrics-in-db")),
 			condStr(t.Status.Conditions, func(c trialsv1beta1.TrialCondition) (string, corev1.ConditionStatus, string) {
 				return string(c.Type), c.Status, c.Reason
